@@ -379,6 +379,12 @@ def d45():
   return None if I.is_in(x) else 'Intersection.project returned a point its own is_in rejects (Dykstra tests the a-side iterate but returns the b-side one)'
 
 
+def d45b():
+  from device_kit.projection import Intersection, HyperCube, HalfSpace
+  x = Intersection(HyperCube([[0, 1], [0, 1]]), HalfSpace([1, 1], 1, -1)).project([2, 0.5])
+  return None if np.allclose(x, [1, 0], atol=1e-6) else 'Intersection.project([2, .5]) = %s, the nearest member is (1, 0)' % np.array(x).round(6).tolist()
+
+
 if __name__ == '__main__':
   names = [a for a in sys.argv[2:]] or sorted(k for k in globals() if k[0] == 'd' and k[1:3].isdigit())
   bad = 0
